@@ -100,7 +100,10 @@ def listing(d):
     return sorted(out, key=lambda x: x if isinstance(x, str) else x[0])
 
 
-def make_dep(scripts, style, all_files, source_kind, missing=()):
+IDENT = {"safe": ("my.dep_1", "1.2.3"), "spaced": ("my widget,x", "1.0+b.5")}
+
+
+def make_dep(scripts, style, all_files, source_kind, missing=(), ident="safe"):
     from htmltools import HTMLDependency
     if source_kind == "dir":
         source = {"subdir": src_dir_for("dir", missing)}
@@ -116,21 +119,23 @@ def make_dep(scripts, style, all_files, source_kind, missing=()):
     kw = {}
     if source is not None:
         kw["source"] = source
-    return HTMLDependency("my.dep_1", "1.2.3", script=[{"src": s} for s in scripts],
+    return HTMLDependency(IDENT[ident][0], IDENT[ident][1], script=[{"src": s} for s in scripts],
                           stylesheet=[{"href": style}] if style else [], all_files=all_files, **kw)
 
 
 def fn(case):
     from htmltools import HTMLDocument, Tag, TagList
-    scripts, style, all_files, source_kind, libdir, incv, stale, caller, missing = case
+    scripts, style, all_files, source_kind, libdir, incv, stale, caller, missing = case[:9]
+    ident = case[9] if len(case) > 9 else "safe"
+    dname, dver = IDENT[ident]
     viols = []
     tdir = tempfile.mkdtemp(prefix="c", dir=os.path.join(_FX["root"], "t"))
     try:
-        dep = make_dep(scripts, style, all_files, source_kind, missing)
-        info = {"name": "my.dep_1", "version": "1.2.3", "source": dep.source}
+        dep = make_dep(scripts, style, all_files, source_kind, missing, ident)
+        info = {"name": dname, "version": dver, "source": dep.source}
         local = source_kind in ("dir", "package")
         destdir = os.path.join(tdir, libdir) if libdir else tdir
-        target = os.path.join(destdir, "my.dep_1" + ("-1.2.3" if incv else ""))
+        target = os.path.join(destdir, dname + ("-" + dver if incv else ""))
         if stale == "file":
             os.makedirs(target)
             with open(os.path.join(target, "STALE.txt"), "w") as f:
@@ -184,7 +189,7 @@ def fn(case):
                 if os.path.isfile(p):
                     with open(p, "w") as f:
                         f.write("tampered")
-            dep2 = make_dep(scripts, style, all_files, source_kind, missing)
+            dep2 = make_dep(scripts, style, all_files, source_kind, missing, ident)
             if caller == "copy_to":
                 dep2.copy_to(destdir, include_version=incv)
             else:
@@ -204,7 +209,11 @@ def fn(case):
                     for k, v in t[2]:
                         if (t[1], k) in (("script", "src"), ("link", "href")):
                             urls.append(_html.unescape(v))
-            base = dep_href(info, libdir, incv)
+            if source_kind in ("dir", "package"):
+                base = dname + ("-" + dver if incv else "")
+                base = join_url(libdir, base) if libdir else base
+            else:
+                base = dep_href({"name": "x", "version": "1", "source": dep.source}, libdir, incv)
             exp_urls = [join_url(base, pct_encode(style))] if style else []
             exp_urls += [join_url(base, pct_encode(s)) for s in scripts]
             if urls != exp_urls:
@@ -279,7 +288,13 @@ def plan(tier):
                         for caller in (("document", "copy_to") if tier == "quick" else ("document", "tag", "list", "copy_to")):
                             for af in (False,):
                                 fault_cases.append((sc, st, af, kind, "lib", True, stale, caller, ms))
+    spaced = Prod(Const([[FILES[0]], [FILES[1], FILES[2]], []]), Const([None, STYLE]), Const([False, True]),
+                  Const(["dir", "package", "url"]), Const(["lib", None, "x/y"]), Const([True, False]),
+                  Const(["absent", "dir"]), Const(["document", "copy_to"]), Const([[]]), Const(["spaced"]))
     return [
+        dict(kind="space", name="name-and-version-with-reserved-characters", space=spaced, fn=fn,
+             note="dependency named 'my widget,x' version '1.0+b.5' (space, comma, plus): the directory part of the URL "
+                  "is written literally and must name the directory the files were copied to"),
         dict(kind="space", name="configuration-product", space=main, fn=fn,
              note=f"{main.size} configurations, 0 faults"),
         dict(kind="space", name="single-fault-missing-file", space=Const(fault_cases), fn=fn,
